@@ -210,6 +210,9 @@ static void calc_case(uint64_t index)
       unsigned w = (unsigned)hv_below(&R, 5); hwloc_obj_t io = NULL;
       if ((w == 0 || w == 2 || w == 4) && !npci) w = 1; if ((w == 1 || w == 3) && !nosd) w = 0;
       if (w == 0) { io = hwloc_get_obj_by_depth(T, HWLOC_TYPE_DEPTH_PCI_DEVICE, (unsigned)hv_below(&R, npci));
+        /* a bus id designates a device only if it is unique (one bundled file has two devices with the same bus id; the first one is found) */
+        for (unsigned q = 0; q < npci; q++) { hwloc_obj_t o2 = hwloc_get_obj_by_depth(T, HWLOC_TYPE_DEPTH_PCI_DEVICE, q); if (o2 != io && o2->attr->pcidev.domain == io->attr->pcidev.domain && o2->attr->pcidev.bus == io->attr->pcidev.bus && o2->attr->pcidev.dev == io->attr->pcidev.dev && o2->attr->pcidev.func == io->attr->pcidev.func) { io = NULL; break; } }
+        if (!io) { hv_stat("calc.io_location_ambiguous_busid_skipped", 1); hv_str_free(&tx); continue; }
         if (io->attr->pcidev.domain || hv_chance(&R, 1, 2)) hv_str_add(&tx, "pci=%04x:%02x:%02x.%01x", io->attr->pcidev.domain, io->attr->pcidev.bus, io->attr->pcidev.dev, io->attr->pcidev.func);
         else hv_str_add(&tx, "pci=%02x:%02x.%01x", io->attr->pcidev.bus, io->attr->pcidev.dev, io->attr->pcidev.func); }
       else if (w == 1) { io = hwloc_get_obj_by_depth(T, HWLOC_TYPE_DEPTH_OS_DEVICE, (unsigned)hv_below(&R, nosd));
